@@ -177,6 +177,7 @@ int main(int argc, char **argv)
 	vh_rng_t rng;
 	unsigned long nops = 0;
 	vh_parse_args(argc, argv, &a);
+	vh_alloc_install();	/* foreign frees and writes after free, also inside the uninstrumented JSON library */
 	if (!strcmp(a.mode, "exh")) {
 		long seq = 0;
 		for (int len = 1; len <= (int)a.n; len++) {
